@@ -279,6 +279,8 @@ func (bc *buildCtx) realImpl(d *D) interface{} {
 		return tSafeFmt{d.Sub, func() *buildCtx { return bc }}
 	case "SafeFmtErr":
 		return tSafeFmtErr{tSafeFmt{d.Sub, func() *buildCtx { return bc }}}
+	case "PSafeFmtErr": // pointer form: comparable, for identity checks (C15)
+		return &tSafeFmtErr{tSafeFmt{d.Sub, func() *buildCtx { return bc }}}
 	case "SafeMsg":
 		return tSafeMsg{string(d.S)}
 	case "SVInt":
